@@ -21,6 +21,9 @@
                   is gone, a write error and therefore closeOnWriteErr -> Close
      "eof"        the read loop: handles the packets Faults[t] (the handler panics on
                   some), then reads EOF because the peer closed, and closes
+     "wreset"     conn.WritePacket(pkt) whose socket write fails with *net.OpError{ECONNRESET},
+     "wclosed"    ... with *net.OpError{net.ErrClosed}; the read loop is parked (auto reading
+                  off), so only closeOnWriteErr can close the connection
      "switch"     conn.SetActiveSessionHandler(reg, h_t): installs a second counting handler
                   (-- gate sh.switch.installed --), then calls its Activated()
      "switchw"    the same with a handler whose Activated() writes a packet (like "write":
@@ -70,10 +73,10 @@ SeqsUpTo(n, set) == IF n = 0 THEN {<<>>}
                     ELSE SeqsUpTo(n - 1, set) \cup
                          {Append(s, k) : s \in {x \in SeqsUpTo(n - 1, set) : Len(x) = n - 1}, k \in set}
 FaultsAll3 == SeqsUpTo(3, PanicKinds \cup {"none"})
-KindsAll == {"close", "unknown", "closewith", "write", "eof", "switch", "switchw"}
+KindsAll == {"close", "unknown", "closewith", "write", "eof", "switch", "switchw", "wreset", "wclosed"}
 Handlers == Threads \cup {"h0"}
-WriteLike(k) == k \in {"write", "switchw"}
-NotCloser(k) == k \in {"write", "switch", "switchw"}
+WriteLike(k) == k \in {"write", "switchw", "wreset", "wclosed"}
+NotCloser(k) == k \in {"write", "switch", "switchw", "wreset", "wclosed"}
 KindsEof == {"eof"}
 
 Init == /\ kind \in {f \in [Threads -> Kinds] : Cardinality({t \in Threads : f[t] = "eof"}) <= 1}
@@ -114,6 +117,13 @@ Start(t) ==
                             /\ UNCHANGED <<res, peerGone, alive>>
                        ELSE Go(t, "done") /\ Ret(t, "ok") /\ lateOk' = (lateOk \/ CloserReturned)
                             /\ UNCHANGED <<peerGone, alive>>
+         [] kind[t] \in {"wreset", "wclosed"} ->
+              \* the socket write fails with a *net.OpError (ECONNRESET / net.ErrClosed) while the
+              \* read loop is parked (auto reading off): closeOnWriteErr must close all the same
+              IF cancelled
+                THEN Go(t, "done") /\ Ret(t, "closed") /\ UNCHANGED <<peerGone, alive, lateOk>>
+                ELSE Go(t, "enter") /\ lateOk' = (lateOk \/ CloserReturned)
+                     /\ UNCHANGED <<res, peerGone, alive>>
          [] kind[t] \in {"switch", "switchw"} ->
               \* Deactivated(old); install the new handler; SetState; unlock
               Go(t, "inst") /\ UNCHANGED <<res, peerGone, alive, lateOk>>
